@@ -11,21 +11,24 @@ Inductive squery :=
   SQ (src : query)          (* the generated expression (QLeaf/QNot/QAnd/QOr), rendered to SeqQL *)
      (ast : query)          (* the AST the real parser handed to the fraction (after NOT propagation) *)
      (from to : N) (rev : bool) (limit : N) (wt : bool)
-     (ids : list id) (total : N).   (* seq.QPR.IDs, seq.QPR.Total *)
+     (hist : N)                     (* HistInterval, 0 = none *)
+     (ids : list id) (total : N)    (* seq.QPR.IDs, seq.QPR.Total *)
+     (himpl : list (N * N)).        (* seq.QPR.Histogram sorted by bucket *)
 
 Definition ids_eqb := list_eqb id_eqb.
+Definition hist_eqb := list_eqb (pair_eqb N.eqb N.eqb).
 
 Definition sq_agrees (p : prepared) (s : squery) : bool :=
-  let 'SQ _ ast from to rev limit wt ids total := s in
-  match search_prepared p ast from to rev limit wt with
-  | Ok (mi, mt) => ids_eqb mi ids && (mt =? total)
-  | OutOfFuel => false
+  let 'SQ _ ast from to rev limit wt hist ids total himpl := s in
+  match search_prepared p ast from to rev limit wt hist, hist_prepared p ast from to rev hist with
+  | Ok (mi, mt), Ok mh => ids_eqb mi ids && (mt =? total) && hist_eqb mh himpl
+  | _, _ => false
   end.
 
 Definition sq_spec_ok (c : list doc) (s : squery) : bool :=
-  let 'SQ src _ from to rev limit wt ids total := s in
+  let 'SQ src _ from to rev limit wt hist ids total himpl := s in
   let '(si, st) := search_spec c src from to rev limit wt in
-  ids_eqb si ids && (st =? total).
+  ids_eqb si ids && (st =? total) && hist_eqb (hist_spec c src from to hist) himpl.
 
 Inductive case :=
 (* a tree of real merge nodes over static posting lists, drained: impl = all values Next() returned *)
